@@ -291,6 +291,22 @@ impl ZonedDateTime {
         let start = self.tz.get_iso_datetime_for(&self.instant, provider)?;
         // 3. Let endDateTime be GetISODateTimeFor(timeZone, ns2).
         let end = self.tz.get_iso_datetime_for(&other.instant, provider)?;
+        // NOTE: when both instants read the same local date the difference is the elapsed time:
+        // no day can be borrowed, and around a repeated hour the wall-clock times can be in the
+        // opposite order to the instants, for which the steps below find no day correction.
+        // If CompareISODate(startDateTime.[[ISODate]], endDateTime.[[ISODate]]) = 0, then
+        if start.date == end.date {
+            // a. Let timeDuration be TimeDurationFromEpochNanosecondsDifference(ns2, ns1).
+            let time_duration = NormalizedTimeDuration::from_nanosecond_difference(
+                other.epoch_nanoseconds().as_i128(),
+                self.epoch_nanoseconds().as_i128(),
+            )?;
+            // b. Return CombineDateAndTimeDuration(ZeroDateDuration(), timeDuration).
+            return NormalizedDurationRecord::new(
+                crate::builtins::core::duration::DateDuration::default(),
+                time_duration,
+            );
+        }
         // 4. If ns2 - ns1 < 0, let sign be -1; else let sign be 1.
         let sign = if other.epoch_nanoseconds().as_i128() - self.epoch_nanoseconds().as_i128() < 0 {
             Sign::Negative
